@@ -451,10 +451,69 @@ func runSeq(w *core.Worker, c SeqCase) {
 	}
 }
 
+
+// ---- values of interface type, incl. a nil that is the legitimate result
+
+type AnyCase struct {
+	Vals  []string `json:"vals"` // per key: "nil" | "zero" | "str" | "ptr"
+	Calls int      `json:"calls"`
+	ExpMs int      `json:"exp_ms"`
+}
+
+func runAny(w *core.Worker, c AnyCase) {
+	var viol, detail string
+	p := core.Catch(func() {
+		synctest.Test(w.R.T.(*testing.T), func(t *testing.T) {
+			m := gogu.NewMemoizer[string, any](time.Duration(c.ExpMs)*time.Millisecond, 0)
+			mint := cache.New[string, any](cache.NoExpiration, 0)
+			for ki, kind := range c.Vals {
+				key := fmt.Sprintf("k%d", ki)
+				var val any
+				switch kind {
+				case "zero":
+					val = 0
+				case "str":
+					val = "v" + key
+				case "ptr":
+					val = (*int)(nil)
+				}
+				runs := 0
+				for i := 1; i <= c.Calls; i++ {
+					it, err := m.Memoize(key, func() (*cache.Item[any], error) {
+						runs++
+						mint.Update(key, val, cache.NoExpiration)
+						x, _ := mint.Get(key)
+						return x, nil
+					})
+					if err != nil || it == nil || it.Val() != val {
+						viol, detail = "memoize.any-value", fmt.Sprintf("Memoizer[string,any]: call %d for a function whose result is %s returned (%v, %v)", i, kind, it, err)
+						return
+					}
+					if runs != 1 {
+						viol, detail = "memoize.any-recomputed-although-cached", fmt.Sprintf("Memoizer[string,any]: after %d calls the function whose successful result is %s has run %d times (expiry %dms, no time passed)", i, kind, runs, c.ExpMs)
+						return
+					}
+					time.Sleep(time.Microsecond)
+				}
+			}
+		})
+	})
+	if p != nil && viol == "" {
+		viol, detail = "memoize.any-panic", fmt.Sprintf("panicked: %v", p)
+	}
+	if viol != "" {
+		w.Violation(viol, detail)
+		return
+	}
+	if c.Calls >= 2 {
+		w.NonTrivial(core.HashString(core.JSON(c)))
+	}
+}
+
 func TestProp(t *testing.T) {
 	r := core.Start(t, "C17")
 	defer r.Finish()
-	r.Rule("memo-concurrent: 1..16 goroutines calling Memoize on 1..3 keys inside a testing/synctest bubble (-race build) with function latency {0, 10ms, 1s virtual}, outcomes {value, error, error-then-value, item+error, item+error-then-value}, staggered starts, expiry {never, 25ms}; the supplied function counts executions in flight per key and logs (trigger, start, end, result) with virtual timestamps; checked: never 2 in flight per key, every result produced by a same-key execution that finished before the caller returned (errors only from overlapping executions, values not after their expiry), no execution triggered by a call that began after a live value was cached, no waiting on another key; each distinct case is repeated for schedule diversity (distinct = (case without the repetition index, GOMAXPROCS); non-trivial = >= 2 callers) || memo-sequential: every call/advance pattern up to length 5 against an exact cache model (non-trivial = at least one cache hit)")
+	r.Rule("memo-concurrent: 1..16 goroutines calling Memoize on 1..3 keys inside a testing/synctest bubble (-race build) with function latency {0, 10ms, 1s virtual}, outcomes {value, error, error-then-value, item+error, item+error-then-value}, staggered starts, expiry {never, 25ms}; the supplied function counts executions in flight per key and logs (trigger, start, end, result) with virtual timestamps; checked: never 2 in flight per key, every result produced by a same-key execution that finished before the caller returned (errors only from overlapping executions, values not after their expiry), no execution triggered by a call that began after a live value was cached, no waiting on another key; each distinct case is repeated for schedule diversity (distinct = (case without the repetition index, GOMAXPROCS); non-trivial = >= 2 callers) || memo-any: Memoizer[string,any] whose function succeeds with nil / 0 / a string / a typed nil pointer: computed once, served from the cache afterwards || memo-sequential: every call/advance pattern up to length 5 against an exact cache model (non-trivial = at least one cache hit)")
 
 	reps := r.Pick(12, 120)
 	core.Monitor(r, "memo-concurrent", 0, func(emit func(Case)) {
@@ -499,4 +558,17 @@ func TestProp(t *testing.T) {
 		}
 		r.Exhaustive(fmt.Sprintf("all sequential patterns of length<=%d over {call a ok, call a failing, call a failing with an item next to the error, call b ok, advance to 1ns before expiry, to 1ns after expiry, by 1ms} x expiry {never, 50ms} x latency {0, 10ms}", r.Pick(5, 6)), n)
 	}, runSeq)
+
+	core.Monitor(r, "memo-any", 0, func(emit func(AnyCase)) {
+		kinds := []string{"nil", "zero", "str", "ptr"}
+		for _, a := range kinds {
+			for _, b := range kinds {
+				for calls := 1; calls <= 4; calls++ {
+					for _, exp := range []int{0, 50} {
+						emit(AnyCase{Vals: []string{a, b}, Calls: calls, ExpMs: exp})
+					}
+				}
+			}
+		}
+	}, runAny)
 }
